@@ -32,7 +32,7 @@ ASSUMPTIONS = ['violated at 0 means rho(0) < 0 (the trigger of explain()); a cor
 REAL = common.REAL_ALL + ['rtamt STL explainer']
 STUBS = common.STUBS_ALL
 PROBES = ['violated_and_explained', 'satisfied_nothing_reported', 'variable_occurs_twice', 'window_beyond_trace', 'unreported_samples_exist',
-          'everything_reported']
+          'everything_reported', 'log_longer_than_257_samples']
 ENVELOPE_RULES = []
 
 EXPLAIN_OPS = set(sg.ALL_OPS) - {'since', 'until', 'unless', 'since_b', 'until_b', 'unless_b', 'ln', 'log'}
@@ -90,7 +90,23 @@ def _gen(rng):
             u2 = rng.choice(['eventually', 'once', 'eventually_b', 'once_b'])
             ast = bnd(u1) + [['and' if rng.random() < 0.5 else 'or', bnd(u2) + [p1], p2]]
     n = rng.randint(1, 8) if not directed else rng.randint(4, 8)
+    if rng.random() < 0.03:
+        n = rng.choice([258, 300, 400])      # a log longer than CPython's small-integer cache (positions compared by identity)
     data = world.gen_trace(rng, vars_, n)
+    if n > 257 and rng.random() < 0.6:
+        # an unbounded future operator over next/s_next: the interval handed down reaches the last sample of the long log
+        inner = sg.gen_formula(rng, sg.GenCfg(vars=vars_, ops=ops, max_depth=rng.randint(1, 2), max_bound=2, strict_sorts=True,
+                                              pred_var_const=True))
+        if inner[0] not in ('var', 'const') and inner[0] not in sg.TERM_UN + sg.TERM_BIN:
+            ast = [rng.choice(['eventually', 'always']), [rng.choice(['next', 's_next']), inner]]
+            if rng.random() < 0.3:
+                ast = ['not', ast]
+    if n > 257:
+        # a long quiet log: every sensor sits at one level with rare blips (otherwise no existential operator is ever violated)
+        for v in vars_:
+            base = rng.choice(sg.LATTICE)
+            blips = rng.choice([0.0, 0.0, 0.005])
+            data[v] = [(rng.choice(sg.LATTICE) if rng.random() < blips else base) for _ in range(n)]
     nc = 24
     rnd = [[rng.choice(sg.LATTICE) for _ in range(n * nv)] for _ in range(nc)]
     return {'vars': vars_, 'ast': ast, 'n': n, 'data': data, 'rnd': rnd}
@@ -173,6 +189,8 @@ def run(sc):
                 r.violate('nothing-reported-when-satisfied', spec=text, data=data, rho0=rho0, explanations=names)
         return r
     r.probes['violated_and_explained'] += 1
+    if n > 257:
+        r.probes['log_longer_than_257_samples'] += 1
     unrep = sum(1 for v in sg.vars_of(ast) for i in range(n) if i not in rep[v])
     if unrep:
         r.probes['unreported_samples_exist'] += 1
